@@ -69,3 +69,65 @@ Definition norm_val (v : attrval) : attrval :=
 Definition same_attr (a a' : attr) : Prop :=
   a_type a' = a_type a /\ a_val a' = norm_val (a_val a) /\
   (known_type (a_type a) = false -> a_opt a' = a_opt a /\ a_trans a' = true /\ a_part a' = a_part a).
+
+(* ------------------------------------------------------------------ UPDATE *)
+
+(* does the attribute put anything on the wire (empty communities / cluster lists do not) *)
+Definition emits (o : eopts) (a : attr) : bool :=
+  match encodeAttr o a with Some ([], _) => false | _ => true end.
+
+(* the receiver's rule: if one of ORIGIN, AS_PATH, NEXT_HOP/MP_REACH_NLRI is there, all have to be *)
+Definition mand_final (l : list attr) : bool :=
+  let nh := hasAttr 3 l || hasAttr 14 l in
+  negb (nh || hasAttr 1 l || hasAttr 2 l) || (nh && hasAttr 1 l && hasAttr 2 l).
+
+(* what SerializeUpdate (SAFI unicast) can represent: unicast IPv4 NLRI in the two NLRI fields, representable
+   attributes, and an attribute set the receiver accepts (bio-rd sends ORIGIN, AS_PATH and NEXT_HOP or
+   MP_REACH_NLRI together; withdrawals carry none of them) *)
+Definition wf_update (o : eopts) (u : update_msg) : Prop :=
+  Forall (wf_nlri 1 (useAddPath o)) (u_withdrawn u) /\
+  Forall (wf_attr o) (u_attrs u) /\
+  Forall (wf_nlri 1 (useAddPath o)) (u_nlri u) /\
+  mand_final (filter (emits o) (u_attrs u)) = true /\
+  (u_nlri u <> [] ->
+   hasAttr 1 (filter (emits o) (u_attrs u)) && hasAttr 2 (filter (emits o) (u_attrs u)) &&
+   hasAttr 3 (filter (emits o) (u_attrs u)) = true).
+
+(* the decoded UPDATE carries the same content *)
+Definition same_update (o : eopts) (u u' : update_msg) : Prop :=
+  u_withdrawn u' = u_withdrawn u /\ u_nlri u' = u_nlri u /\
+  Forall2 same_attr (filter (emits o) (u_attrs u)) (u_attrs u').
+
+(* ------------------------------------------------------------------ OPEN *)
+
+Definition triple_ok (a b c : N) (t : N * N * N) : Prop := fst (fst t) < a /\ snd (fst t) < b /\ snd t < c.
+
+(* the capabilities bio-rd announces; the one-byte capability length has to hold the value *)
+Definition wf_cap (c : cap) : Prop :=
+  match c_val c with
+  | CVMP afi safi => c_code c = 1 /\ afi < 65536 /\ safi < 256
+  | CVAddPath l => c_code c = 69 /\ Forall (triple_ok 65536 256 256) l /\ 4 * len l <= 255
+  | CVASN4 a => c_code c = 65 /\ u32 a
+  | CVRole r => c_code c = 9 /\ r < 256
+  | CVExtNH l => c_code c = 5 /\ Forall (triple_ok 65536 65536 65536) l /\ 6 * len l <= 255
+  | CVNone => False
+  end.
+
+Definition capSize (c : cap) : N :=
+  2 + match c_val c with
+      | CVMP _ _ => 4 | CVAddPath l => 4 * len l | CVASN4 _ => 4 | CVRole _ => 1 | CVExtNH l => 6 * len l | CVNone => 0
+      end.
+Definition capsSize (l : list cap) : N := fold_right (fun c s => capSize c + s) 0 l.
+Definition paramsSize (l : list optparam) : N := fold_right (fun p s => 2 + capsSize (o_caps p) + s) 0 l.
+
+Definition wf_open (m : open_msg) : Prop :=
+  op_version m = 4 /\ op_asn m < 65536 /\ op_hold m < 65536 /\ op_hold m <> 1 /\ op_hold m <> 2 /\
+  u32 (op_id m) /\ op_id m <> 0 /\
+  Forall (fun p => o_type p = 2 /\ Forall wf_cap (o_caps p) /\ capsSize (o_caps p) <= 255) (op_params m) /\
+  paramsSize (op_params m) <= 255.
+
+(* the decoded OPEN: the same fields, capabilities and values; lengths as computed by the serializer *)
+Definition canon_cap (c : cap) : cap := mkCap (c_code c) (capSize c - 2) (c_val c).
+Definition canon_param (p : optparam) : optparam := mkOptParam 2 (capsSize (o_caps p)) (map canon_cap (o_caps p)).
+Definition canon_open (m : open_msg) : open_msg :=
+  mkOpen (op_version m) (op_asn m) (op_hold m) (op_id m) (paramsSize (op_params m)) (map canon_param (op_params m)).
